@@ -23,6 +23,7 @@
 #include <poll.h>
 #include <stdarg.h>
 #include <atomic>
+#include <sys/prctl.h>
 extern "C" {
 #include <plibsys.h>
 }
@@ -86,6 +87,8 @@ struct WSlots { std::map<int, PSemaphore *> sems; std::map<int, PShm *> shms; st
 string pattern_bytes(size_t len, unsigned seed) { string s(len, 0); unsigned x = seed * 2654435761u + 12345u; for (size_t i = 0; i < len; i++) { x = x * 1103515245u + 12345u; s[i] = (char)(1 + (x >> 16) % 251); } return s; }
 
 void worker_main(int fd) {
+  prctl(PR_SET_PDEATHSIG, SIGKILL);   // never outlive the coordinator
+  if (getppid() == 1) _exit(0);
   g_worker_fd = fd;
   WSlots S;
   FILE *in = fdopen(dup(fd), "r");
@@ -156,7 +159,7 @@ void worker_main(int fd) {
         size_t plen = (size_t)(1 + (f * 7 + id * 3) % maxlen);
         string fr; fr += (char)plen; fr += (char)id; fr += (char)(f & 0xff); fr += pattern_bytes(plen, (unsigned)(id * 1000 + f));
         int spins = 0;
-        for (;;) { pssize n = p_shm_buffer_write(b, (ppointer)fr.data(), fr.size(), NULL); if (n == (pssize)fr.size()) break; if (n != 0) { r = "short-write"; f = frames; break; } if (++spins > 2000000) { r = "stuck"; f = frames; break; } sched_yield(); }
+        for (;;) { pssize n = p_shm_buffer_write(b, (ppointer)fr.data(), fr.size(), NULL); if (n == (pssize)fr.size()) break; if (n != 0) { r = "short-write"; f = frames; break; } if (++spins > 20000) { r = "stuck"; f = frames; break; } if (spins % 50 == 0) usleep(200); else sched_yield(); }
       }
     }
     else if (cmd == "buf_cons") { // reads byte stream, reassembles frames, checks integrity and per-producer order
@@ -165,7 +168,7 @@ void worker_main(int fd) {
       while (got < total_frames && r == "ok") {
         char tmp[64]; pint n = p_shm_buffer_read(b, tmp, 1 + (size_t)(spins % 37), NULL);
         if (n < 0) { r = "read-failed"; break; }
-        if (n == 0) { if (++spins > 4000000) { r = "stuck"; break; } sched_yield(); continue; }
+        if (n == 0) { if (++spins > 40000) { r = "stuck"; break; } if (spins % 50 == 0) usleep(200); else sched_yield(); continue; }
         stream.append(tmp, (size_t)n);
         while (stream.size() >= 3 && stream.size() >= 3 + (size_t)(unsigned char)stream[0]) {
           size_t plen = (unsigned char)stream[0]; int id = (unsigned char)stream[1]; int seq = (unsigned char)stream[2];
@@ -300,7 +303,7 @@ struct SemGen { long value = 0; sem_t *peek = SEM_FAILED; bool name_linked = tru
 struct SemHandle { int gen = -1; bool owner = false; bool live = false; };
 
 Outcome run_c06(const Case &c, bool thorough) {
-  Coord co; char u[48]; snprintf(u, sizeof u, "v6_%d_", (int)getpid()); co.uniq = u;
+  Coord co; char u[64]; { struct timespec ts; clock_gettime(CLOCK_MONOTONIC, &ts); snprintf(u, sizeof u, "v6_%d_%lx_", (int)getpid(), (long)(ts.tv_sec * 1000000000L + ts.tv_nsec)); } co.uniq = u;  /* pid + time: a recycled pid must never meet a stale name of an interrupted run */
   co.grace_ms = thorough ? 400 : 150;
   int P = 3;
   for (auto &s : c.steps) P = std::max(P, s.worker + 1);
@@ -457,7 +460,7 @@ struct ShmGen { vector<unsigned char> bytes; size_t size = 0; bool linked = true
 struct ShmHandle { int gen = -1; bool owner = false, live = false, ro = false; size_t arg = 0; size_t reported = 0; };
 
 Outcome run_c07(const Case &c, bool thorough) {
-  Coord co; char u[48]; snprintf(u, sizeof u, "v7_%d_", (int)getpid()); co.uniq = u;
+  Coord co; char u[64]; { struct timespec ts; clock_gettime(CLOCK_MONOTONIC, &ts); snprintf(u, sizeof u, "v7_%d_%lx_", (int)getpid(), (long)(ts.tv_sec * 1000000000L + ts.tv_nsec)); } co.uniq = u;  /* pid + time: a recycled pid must never meet a stale name of an interrupted run */
   co.grace_ms = thorough ? 400 : 150;
   int P = 3;
   co.spawn(P);
@@ -645,12 +648,12 @@ Outcome run_c07(const Case &c, bool thorough) {
         // one of them failed: a later open must still address the same memory as the surviving handle (no owner free happened in between... the failed call's clean-up must not destroy the survivor's name)
         int sw = ok1 ? w : w2; int ss = ok1 ? key.second : 2;
         int w3 = (w + 2) % P; if (co.ws[(size_t)w3].dead) co.respawn(w3);
-        string r3 = co.call(w3, "shm_new 1 " + name + " " + std::to_string(size) + " 0");
+        string r3 = co.call(w3, "shm_new 8 " + name + " " + std::to_string(size) + " 0");   // slot 8: never used by generated steps
         if (r3.rfind("ok", 0) == 0) {
           co.call(sw, "shm_store " + std::to_string(ss) + " 0 1 99");
-          string a = co.call(sw, "shm_load " + std::to_string(ss) + " 0 1"), b = co.call(w3, "shm_load 1 0 1");
+          string a = co.call(sw, "shm_load " + std::to_string(ss) + " 0 1"), b = co.call(w3, "shm_load 8 0 1");
           if (a.substr(0, 7) != b.substr(0, 7)) co.fail("race-same-bytes", "concurrent first opens (second at point " + std::to_string(pause) + " of the first): one failed (" + (ok1 ? r2 : r1) + ") and its clean-up removed the name, so a third open addresses different memory than the surviving handle");
-          co.call(w3, "shm_own 1"); co.call(w3, "shm_free 1");
+          co.call(w3, "shm_own 8"); co.call(w3, "shm_free 8");
         }
         race_both = true;
       }
@@ -670,7 +673,7 @@ Outcome run_c07(const Case &c, bool thorough) {
 
 // ---- C08 multi-process layer ---------------------------------------------------------------------------------
 Outcome run_c08(const Case &c, bool thorough) {
-  Coord co; char u[48]; snprintf(u, sizeof u, "v8_%d_", (int)getpid()); co.uniq = u;
+  Coord co; char u[64]; { struct timespec ts; clock_gettime(CLOCK_MONOTONIC, &ts); snprintf(u, sizeof u, "v8_%d_%lx_", (int)getpid(), (long)(ts.tv_sec * 1000000000L + ts.tv_nsec)); } co.uniq = u;  /* pid + time: a recycled pid must never meet a stale name of an interrupted run */
   co.hang_is_verdict = true; co.case_text = to_text(c); co.prop = "C08";
   int P = 3; co.spawn(P);
   string name = co.uniq + "b"; co.names_used.insert(name);
@@ -763,12 +766,12 @@ rc::Gen<int> rng(int lo, int hi) { return rc::gen::resize(100, rc::gen::inRange(
 rc::Gen<Step> genStep(const string &prop, bool kills) {
   using namespace rc;
   if (prop == "C06") {
-    auto cmd = gen::weightedElement<string>({{8, "new"}, {8, "acq"}, {6, "rel"}, {2, "own"}, {4, "free"}, {1, "phase"}});
+    auto cmd = gen::weightedElement<string>({{8, "new"}, {12, "acq"}, {5, "rel"}, {2, "own"}, {3, "free"}, {2, "phase"}});
     return gen::map(gen::tuple(rng(0, 3), cmd, rng(0, 3), rng(0, 2), gen::element<long>(0, 1, 2, 3, 7), rng(0, 2), kills ? gen::weightedOneOf<int>({{6, gen::just(0)}, {1, rng(1, 9)}}) : gen::just(0)),
                     [](const std::tuple<int, string, int, int, long, int, int> &t) { Step s; s.worker = std::get<0>(t); s.cmd = std::get<1>(t); s.args = {std::get<2>(t), std::get<3>(t), std::get<4>(t), std::get<5>(t)}; if (s.cmd == "new" || s.cmd == "free" || s.cmd == "acq") s.kill = std::get<6>(t); return s; });
   }
   if (prop == "C07") {
-    auto cmd = gen::weightedElement<string>({{8, "new"}, {8, "store"}, {8, "load"}, {3, "lock"}, {3, "unlock"}, {1, "own"}, {4, "free"}, {1, "phase"}, {2, "race"}});
+    auto cmd = gen::weightedElement<string>({{8, "new"}, {8, "store"}, {8, "load"}, {5, "lock"}, {3, "unlock"}, {1, "own"}, {3, "free"}, {2, "phase"}, {2, "race"}});
     return gen::map(gen::tuple(rng(0, 3), cmd, rng(0, 3), rng(0, 2), rng(0, 8), rng(0, 1000), kills ? gen::weightedOneOf<int>({{6, gen::just(0)}, {1, rng(1, 25)}}) : gen::just(0), rng(1, 13)),
                     [](const std::tuple<int, string, int, int, int, int, int, int> &t) { Step s; s.worker = std::get<0>(t); s.cmd = std::get<1>(t);
                       if (s.cmd == "store" || s.cmd == "load") s.args = {std::get<2>(t), std::get<3>(t) + std::get<5>(t) % 7, std::get<4>(t) + std::get<5>(t), std::get<5>(t)};
@@ -777,7 +780,7 @@ rc::Gen<Step> genStep(const string &prop, bool kills) {
                       if (s.cmd == "race") s.pause = std::get<7>(t);
                       return s; });
   }
-  auto cmd = gen::weightedElement<string>({{4, "open"}, {1, "close"}, {10, "write"}, {9, "read"}, {1, "clear"}, {2, "query"}, {1, "pc"}});
+  auto cmd = gen::weightedElement<string>({{5, "open"}, {1, "close"}, {10, "write"}, {9, "read"}, {1, "clear"}, {2, "query"}, {2, "pc"}});
   return gen::map(gen::tuple(rng(0, 3), cmd, rng(0, 2), rng(0, 6), rng(0, 2000)), [](const std::tuple<int, string, int, int, int> &t) { Step s; s.worker = std::get<0>(t); s.cmd = std::get<1>(t); s.args = {std::get<2>(t), std::get<3>(t), std::get<4>(t)}; return s; });
 }
 rc::Gen<Case> genCase(const string &prop, bool kills) {
